@@ -24,6 +24,11 @@ def check(run):
     run.sample_from(traces[0], 2)
     dmnfam.conformance(run, traces)
     run.validate('Monitor_Daemon', dmnfam.monitor_cfg(INV + ['C03_HandBackOrFull'], []), traces, 'mon')
+    # regulation ends with a control error and the device refuses every write of the restore sequence: no crash either
+    rtr = run.drive('TestDriveC09Restore', 4, lambda i: dict(VERIF_SEED=run.seed * 100 + i, VERIF_N=run.pick(6, 60)), 'c09restore', timeout=1800,
+                    crash_formula='C09_NoCrash')
+    if rtr:
+        run.validate('Monitor_Daemon', dmnfam.monitor_cfg(['C09_NoCrash'], []), rtr, 'monrestore')
     scen = dmnfam.count(traces, lambda ln: '"ev":"Begin"' in ln)
     inj = dmnfam.count(traces, lambda ln: '"ev":"Inject"' in ln)
     ended = dmnfam.count(traces, lambda ln: '"ev":"RestoreEnd"' in ln)
